@@ -126,6 +126,18 @@ theorem minCtx_nopairs (i : CauchyIn K) (n k : Nat) (hx : i.x.length = n) (hg : 
     rw [hB]
     exact hfloor dd hne hpat
 
+/-- the middle matrix `M` is symmetric as soon as the matrix it inverts is — and that one,
+`[[−D, Lᵀ], [L, θ SᵀS]]`, is symmetric by construction -/
+theorem middle_symm {k : Nat} (Mm Minvm : Matrix (Fin k) (Fin k) K) (hM : Mm * Minvm = 1)
+    (hs : Minvmᵀ = Minvm) : Mmᵀ = Mm := by
+  have h3 : Minvm * Mmᵀ = 1 := by
+    have := congrArg Matrix.transpose hM
+    rw [Matrix.transpose_mul, Matrix.transpose_one, hs] at this
+    exact this
+  calc Mmᵀ = (Mm * Minvm) * Mmᵀ := by rw [hM, Matrix.one_mul]
+    _ = Mm * (Minvm * Mmᵀ) := by rw [Matrix.mul_assoc]
+    _ = Mm := by rw [h3, Matrix.mul_one]
+
 end Lbfgsb.C08
 
 /-! ### Non-vacuity (over ℚ): x = (0,0), g = (−1, 2), box [−1,1]², B = 4·I (no pairs).
@@ -177,7 +189,7 @@ theorem ex_ctx : MinCtx exIn 2 0 (0 : Matrix (Fin 0) (Fin 0) ℚ) (f2orgOf exIn)
     rw [ex_quad]
     have : a 0 ≠ 0 ∨ a 1 ≠ 0 := by
       by_contra hcon
-      push_neg at hcon
+      push Not at hcon
       apply ha
       funext r
       fin_cases r
@@ -201,7 +213,7 @@ theorem ex_ctx : MinCtx exIn 2 0 (0 : Matrix (Fin 0) (Fin 0) ℚ) (f2orgOf exIn)
     rw [ex_d0, e1] at h1
     have : dd 0 ≠ 0 ∨ dd 1 ≠ 0 := by
       by_contra hcon
-      push_neg at hcon
+      push Not at hcon
       apply hne
       funext r
       fin_cases r
